@@ -21,7 +21,7 @@ from harness import sim, tlc
 from harness.common import Check, main_wrapper, OUT
 
 PID = "C07"
-DENIED = ("_private", "secret", "_hidden")
+DENIED = ("_private", "secret", "_hidden", "shadow")
 
 
 from harness.canary import CanaryExc, NotAnException
@@ -42,7 +42,7 @@ class World(object):
         self.consts, self.brine, self.get_id_pack = consts, brine, get_id_pack
         w = self
         self.touched = []
-        self.canaries = {"secret": 0, "_hidden": 0, "os.system": 0, "pickle": 0}
+        self.canaries = {"secret": 0, "_hidden": 0, "os.system": 0, "pickle": 0, "shadow": 0}
 
         class Obj(object):
             def __init__(self):
@@ -55,6 +55,13 @@ class World(object):
 
             def secret(self, *a):
                 w.canaries["secret"] += 1
+
+            # the object has an internal `shadow` and an exposed twin: a peer asking for "shadow" gets the twin
+            def shadow(self, *a):
+                w.canaries["shadow"] += 1
+
+            def exposed_shadow(self, *a):
+                return "twin"
 
             def __getattribute__(self, name):
                 if name in DENIED:
@@ -76,6 +83,12 @@ class World(object):
 
             def secret(self, *a):
                 w.canaries["secret"] += 1
+
+            def shadow(self, *a):
+                w.canaries["shadow"] += 1
+
+            def exposed_shadow(self, *a):
+                return "twin"
 
             def _hidden(self, *a):
                 w.canaries["_hidden"] += 1
@@ -221,10 +234,13 @@ def concrete_name(t, rnd):
         if target == "root":
             return "getobj" if t["handler"] in ("CALLATTR",) else rnd.choice(["echo", "getobj", "exposed_echo"])
         return "data" if t["handler"] == "GETATTR" else "meth"
+    if n == "shadowed":
+        return "shadow"
     if n == "denied":
         if t["handler"] == "CMP":
             return rnd.choice(["secret", "_hidden", "secret", "__init__", "__getattribute__"])
-        return rnd.choice(list(DENIED) + ["pub", "__class__", "__dict__", "__init__", "__getattribute__", "_rpyc_getattr"])
+        return rnd.choice([d for d in DENIED if d != "shadow"] + ["pub", "__class__", "__dict__", "__init__", "__getattribute__",
+                                                                   "_rpyc_getattr"])
     if n == "dunder_safe":
         return rnd.choice(["__hash__", "__eq__", "__repr__", "__str__", "__ne__"]) if t["handler"] != "CALLATTR" else \
             rnd.choice(["__hash__", "__repr__", "__str__"])
@@ -246,7 +262,9 @@ def build_request(w, t, state, rnd):
         "SETATTR": [tgt, V(name), V("NEW")], "CALL": [tgt, V(()), V(())], "CALLATTR": [tgt, V(name), V(()), V(())],
         "REPR": [tgt], "STR": [tgt], "CMP": [tgt, V(5), V(name)], "HASH": [tgt], "DIR": [tgt], "PICKLE": [tgt, V(2)],
         "DEL": [tgt, V(1)], "INSPECT": [V(raw_id(w, t["target"]))], "BUFFITER": [tgt, V(3)],
-        "OLDSLICING": [tgt, V("__getitem__"), V("__getslice__"), V(0), V(1), V(())], "CTXEXIT": [tgt, V(None)],
+        # the first name fails (not subscriptable / no such attribute / refused), the template's name is the fallback
+        "OLDSLICING": [tgt, V(rnd.choice(["__getitem__", "no_such_attribute", "secret", "_private"])), V(name), V(0), V(1), V(())],
+        "CTXEXIT": [tgt, V(None)],
         "INSTANCECHECK": [tgt, V(raw_id(w, "obj"))], "UNKNOWN": [tgt]}[h]
     if t["arity"] == "wrong":
         # always too many arguments (several handlers have optional trailing parameters, so dropping one may be legal)
